@@ -87,7 +87,7 @@ def run(R):
         sites = CallSink(SSA + "on_start", NS + "on_start").blocks(ref)
         ok = len(sites) >= 2
         g_any = [CallGuard([SC + "get_process_pid"], ("Ok",), "get_process_pid is Ok(pid)"), CallGuard(["*::node_info"], ("Ok",), "rpc node_info is Ok")]
-        R.gate("C19.refresh", ref, CallSink(SSA + "on_start", NS + "on_start"), [g_any], descr="refresh: on_start only behind Ok(pid) from the OS or Ok(info) from the node", min_sinks=2)
+        R.gate("C19.refresh", ref, CallSink(SSA + "on_start", NS + "on_start"), [g_any], descr="refresh: on_start only behind Ok(pid) from the OS or Ok(info) from the node")
         _pid_arg(R, "C19.refresh.pid", ref, [SC + "get_process_pid", "*::node_info"])
     ost = R.body("C19.on_start", NS + "on_start::{closure#0}")
     if ost is not None:
@@ -133,7 +133,7 @@ def run(R):
         g_inst = CallGuard([SC + "install"], ("Ok",), "service_control.install is Ok")
         g_start = CallGuard([SM + "start"], ("Ok",), "self.start() is Ok")
         R.gate("C19.upgrade.stop", upg, CallSink("std::fs::copy", SC + "uninstall", SC + "install"), [[g_stop]],
-               descr="upgrade replaces the binary and the service definition only after the service was stopped", min_sinks=3)
+               descr="upgrade replaces the binary and the service definition only after the service was stopped")
         R.gate("C19.upgrade.version", upg, CallSink(SSA + "set_version"), [[g_inst]],
                descr="the new version is recorded only after the new definition was installed", min_sinks=1)
         from rules import FieldBoolGuard
@@ -141,7 +141,7 @@ def run(R):
         forced = AggSink("ant_service_management::UpgradeResult", "Forced")
         both = BlockSink(lambda b: sorted(set(done.blocks(b)) | set(forced.blocks(b))), "UpgradeResult::Upgraded/Forced")
         R.gate("C19.upgrade.result", upg, both, [[g_start, FieldBoolGuard("start_service", want=False, label="start was not requested")]],
-               descr="Upgraded/Forced is reported only if the restart succeeded (or none was requested)", min_sinks=2)
+               descr="Upgraded/Forced is reported only if the restart succeeded (or none was requested)")
     rem = R.body("C19.remove", SM + "remove::{closure#0}")
     if rem is not None:
         prep(rem)
